@@ -31,7 +31,7 @@ which the two possible denominators are non-zero) -/
 theorem slerp_tree {o : Ops K} (ho : OrderedLike o) (j : Nat) (hj : j < 4) (env : Nat → K)
     (hall : ∀ a ∈ sinDivs, a.divOK o env ∧ a.eval o env ≠ 0) :
     ((lookup "slerp" []).out j).eval o env = (slerpT trig j).eval o env :=
-  Family.tree_frac_sound ho.toFieldLike (all_ok f_slerp (by simp [families])) rfl rfl rfl (ks := []) (by simp [f_slerp]) (j := j) hj env hall
+  Family.tree_frac_sound ho.toFieldLike (all_ok f_slerp (by simp [families])) rfl rfl rfl (ks := []) (by simp [f_slerp]) (j := j) hj env hall rfl
 
 /-- **no invalid operation**: on the path slerp takes, every `acos` argument is within `[-1, 1]` -/
 theorem slerp_defined {o : Ops K} (ho : OrderedLike o) (j : Nat) (hj : j < 4) (env : Nat → K) :
